@@ -110,6 +110,7 @@ let run (input : string) (obs : string) : string * string =
     (* the read-only mapper rejects unknown namespaces and missing subjects before the engine runs *)
     let unmappable = (not (known_ns tu.t_ns)) || (tu.t_sid = None && tu.t_sset = None)
                      || (match tu.t_sid, tu.t_sset with None, Some ss -> not (known_ns ss.ss_ns) | _ -> false) in
+    if obs = "hang" then ("SKIP", "fail:check-did-not-return") else
     if unmappable then ("maperr", if obs = "maperr" then "pass" else "na") else begin
       match run_check tu rd (fun _ -> false) with
       | None -> ("OUTOFGAS", "na")
